@@ -568,7 +568,10 @@ fn shapes(tier: Tier) -> Vec<Shape> {
 	// wide bodies: kernel counts around the sizes at which an implementation may batch its
 	// signature verification (every corruption is applied at every one of the kernels, so each
 	// position of the sorted kernel list is covered)
-	let wide: Vec<usize> = if tier == Tier::Quick { vec![33] } else { vec![31, 32, 33, 34, 63, 64, 65] };
+	// (60 kernels is the most that leaves room, within the AutomatedTesting block weight of 250, for
+	// the heaviest corruption - an extra coinbase output with its kernel; the reference does not
+	// model weight, so bodies that a corruption would push over the limit are not generated)
+	let wide: Vec<usize> = if tier == Tier::Quick { vec![33] } else { vec![31, 32, 33, 34, 60] };
 	for nk in wide {
 		v.push(Shape { wv: 0, ni: 1, no: 1, nk, variant: 0, off: nk % 2 == 0 });
 	}
